@@ -825,11 +825,6 @@ func calculateAndCheckRuleHash(state *core.BuildState, target *core.BuildTarget)
 			log.Warning("%s", err)
 		}
 	}
-	if !target.IsFilegroup {
-		if err := writeRuleHash(state, target); err != nil {
-			return nil, fmt.Errorf("Attempting to record rule hash: %s", err)
-		}
-	}
 	// Set appropriate permissions on outputs
 	if target.IsBinary {
 		for _, output := range target.FullOutputs() {
@@ -844,6 +839,12 @@ func calculateAndCheckRuleHash(state *core.BuildState, target *core.BuildTarget)
 			if err != nil {
 				return nil, fmt.Errorf("failed to mark rule output as binary: %w", err)
 			}
+		}
+	}
+	// Record the rule hash last: it is what later builds trust, so everything it vouches for must already be in place.
+	if !target.IsFilegroup {
+		if err := writeRuleHash(state, target); err != nil {
+			return nil, fmt.Errorf("Attempting to record rule hash: %s", err)
 		}
 	}
 	return hash, nil
